@@ -6,7 +6,9 @@ StructCases == {[part |-> "structure", magic |-> "ok", recs |-> f] : f \in Seqs(
                \cup {[part |-> "structure", magic |-> m, recs |-> f] : m \in {"wrong", "short", "absent"}, f \in {<<"hdr", "sig">>, <<"hdr", "cert", "pub", "sig">>, <<>>}}
 TrustCases == {[part |-> "trust", c |-> c] : c \in Within2(GoodTrust, TrustDom)}
 PubVals == {[t |-> t, h |-> h] : t \in {2, 4, 6}, h \in {"a", "b"}}
-LookupCases == {[part |-> "lookup", pubs |-> p, certs |-> c] : p \in Seqs(PubVals, MaxPubs), c \in {<<>>, <<"x">>, <<"y", "x">>, <<"x", "y", "x">>, <<"z", "y">>}}
+(* publication lists in every order (a file need not be sorted by time), certificate lists varied only with the short publication lists *)
+LookupCases == {[part |-> "lookup", pubs |-> p, certs |-> cl] : p \in Seqs(PubVals, 1), cl \in {<<>>, <<"x">>, <<"y", "x">>, <<"x", "y", "x">>, <<"z", "y">>}}
+               \cup {[part |-> "lookup", pubs |-> p, certs |-> <<"x">>] : p \in Seqs(PubVals, MaxPubs)}
 VARIABLE c
 Init == c \in (IF Part = "structure" THEN StructCases ELSE IF Part = "trust" THEN TrustCases ELSE LookupCases)
 Next == UNCHANGED c
